@@ -23,18 +23,27 @@ TARGETS = {
     "option": ("Option<i32>", "Some(7)", [
         ("some", "Some(7)", "Some(8)"), ("some_cmp", "Some(> 6)", "Some(> 7)"), ("none", None, "None"), ("some_wild", "Some(_)", None)]),
     "tuple": ("(i32, String)", "(7, \"hello\".to_string())", [
-        ("tuple", "(7, \"hello\")", "(8, \"hello\")"), ("tuple_idx", "(0: 7, _)", "(0: 8, _)"), ("tuple_cmp", "(> 6, =~ r\"^h\")", "(> 7, _)")]),
+        ("tuple", "(7, \"hello\")", "(8, \"hello\")"), ("tuple_idx", "(0: 7, _)", "(0: 8, _)"), ("tuple_cmp", "(> 6, =~ r\"^h\")", "(> 7, _)"),
+        ("tuple_wild", "(_, _)", None)]),
     "vec": ("Vec<i32>", "vec![1, 2, 3]", [
         ("slice", "[1, 2, 3]", "[1, 2]"), ("slice_rest", "[1, ..]", "[2, ..]"), ("slice_mid", "[1, .., 3]", "[.., 4]"),
-        ("set", "#(3, 1, 2)", "#(1, 2)"), ("set_rest", "#(3, ..)", "#(4, ..)")]),
+        ("set", "#(3, 1, 2)", "#(1, 2)"), ("set_rest", "#(3, ..)", "#(4, ..)"),
+        # forms that check nothing but the shape (every sub-pattern a wildcard): an expander may treat them specially
+        ("set_wild", "#(_, _, _)", "#(_, _)"), ("set_any", "#(..)", None), ("set_wild_rest", "#(_, ..)", None), ("set_empty", None, "#()"),
+        ("slice_wild", "[_, _, _]", "[_, _]"), ("slice_any", "[..]", None)]),
+    "nc_vec": ("Vec<NC>", "vec![NC(\"a\".to_string()), NC(\"b\".to_string())]", [
+        ("slice_nc", "[NC(\"a\"), NC(\"b\")]", "[NC(\"a\")]"), ("set_nc", "#(NC(\"b\"), NC(\"a\"))", "#(NC(\"b\"), NC(\"b\"))"),
+        ("set_nc_wild", "#(_, _)", "#(_)"), ("set_nc_any", "#(..)", None), ("slice_nc_wild", "[_, ..]", None)]),
     "map": ("BTreeMap<String, i32>", "BTreeMap::from([(\"a\".to_string(), 1), (\"b\".to_string(), 2)])", [
         ("map", "#{ \"a\": 1, \"b\": 2 }", "#{ \"a\": 1 }"), ("map_rest", "#{ \"a\": 1, .. }", "#{ \"a\": 2, .. }"),
-        ("map_missing", None, "#{ \"z\": 1, .. }")]),
+        ("map_missing", None, "#{ \"z\": 1, .. }"), ("map_any", "#{ .. }", None), ("map_wild", "#{ \"a\": _, \"b\": _ }", "#{ \"a\": _ }")]),
     "struct": ("Leaf", "Leaf { n: 7, s: \"hello\".to_string() }", [
         ("struct", "Leaf { n: 7, s: \"hello\" }", "Leaf { n: 8, s: \"hello\" }"), ("struct_rest", "Leaf { n: > 6, .. }", "Leaf { n: > 7, .. }"),
-        ("wstruct", "_ { n: 7, .. }", "_ { n: 8, .. }"), ("struct_ops", "Leaf { s.len(): 5, .. }", "Leaf { s.len(): 4, .. }")]),
+        ("wstruct", "_ { n: 7, .. }", "_ { n: 8, .. }"), ("struct_ops", "Leaf { s.len(): 5, .. }", "Leaf { s.len(): 4, .. }"),
+        ("struct_any", "Leaf { .. }", None), ("wstruct_wild", "_ { n: _, .. }", None)]),
     "enum": ("Kind", "Kind::Tup(7, \"hello\".to_string())", [
-        ("variant", "Kind::Tup(7, \"hello\")", "Kind::Tup(8, _)"), ("unit", None, "Kind::Unit"), ("variant_rec", None, "Kind::Rec { a: 1, .. }")]),
+        ("variant", "Kind::Tup(7, \"hello\")", "Kind::Tup(8, _)"), ("unit", None, "Kind::Unit"), ("variant_rec", None, "Kind::Rec { a: 1, .. }"),
+        ("variant_wild", "Kind::Tup(_, _)", None)]),
     "nc_tuple": ("(NC, NC)", "(NC(\"a\".to_string()), NC(\"b\".to_string()))", [
         ("tuple_nc", "(NC(\"a\"), NC(\"b\"))", "(NC(\"a\"), NC(\"c\"))"), ("tuple_nc_wild", "(_, NC(\"b\"))", None)]),
     "box": ("Box<i32>", "Box::new(7)", [("boxed_via_clone", None, None)]),
